@@ -62,6 +62,10 @@ Proof.
   - pose proof (transfer_lp_ok _ _ _ _ _ _ H) as (_ & _ & _ & _ & _ & _ & P0 & P1 & _ & _ & A0 & A1 & U0 & U1 & C0 & C1 & _).
     rewrite P0, P1, A0, A1, U0, U1, C0, C1. auto 10.
   - discriminate.
+  - destruct (en_s s); discriminate.
+  - destruct (en_d s); discriminate.
+  - destruct (en_s s); discriminate.
+  - destruct (en_s s); discriminate.
 Qed.
 
 Theorem ledger_run k sg ops : 0 < c_minliq k -> Inv k (fst sg) -> Ledger sg -> Ledger (grun k sg ops).
